@@ -7,15 +7,16 @@ RFC-0044 is active), reports the cached cycles/fee unchanged, and accepts/reject
 context-independent part (scripts, capacity, fee — what the cache stands for) accepts.  The store's read caches, the pool's async
 `verify_rtx` (coroutine MIR) and the LRU containers themselves are outside.
 """
+import os
 import re
 from mir2smt.ob import *
 from mir2smt import terms as T
-from mir2smt.exec import OpaqueV, IntV, BoolV, AggV, EnumV, RefV, UNIT, Stop, mk_option
+from mir2smt.exec import OpaqueV, IntV, BoolV, AggV, EnumV, RefV, UNIT, Stop, mk_option, mk_result
 from mir2smt import envlib as E
 from mir2smt import compose as C
 from mir2smt.builtins import deref
 
-CRATES = ["ckb-constant", "ckb-occupied-capacity-core", "ckb-types", "ckb-chain-spec", "ckb-verification", "ckb-verification-contextual"]
+CRATES = ["ckb-constant", "ckb-occupied-capacity-core", "ckb-types", "ckb-chain-spec", "ckb-verification", "ckb-verification-contextual", "ckb-store", "ckb-tx-pool"]
 ERRC = [(E.rx(r"as Into<.*Error>>::into$|Error as From<.*>>::from$|ErrorKind::because|::other$"), E.opaque_call())]
 
 
@@ -131,7 +132,174 @@ def m1_cache_hit_path(S):
                 S.prove(ctx, ob, f"path{k}_{tag}_is_built_for_this_transaction", [p.cond()], bool("(tx" in nm or ",tx" in nm), extra={"note": nm})
 
 
-OBLIGATIONS = [m1_cache_hit_path]
+# ---------------------------------------------------------------- m2: the pool's verify_rtx (async fn: its coroutine body is executed from the initial state)
+def _coro(S, name_rx, file_part):
+    c = [f for f in S.prog.funcs if f.kind == "fn" and re.search(r"(^|::)" + name_rx + r"::\{closure#0\}$", f.name) and len(f.params) == 2 and "Context" in f.params[1][1] and file_part in f.params[0][1]]
+    if len(c) != 1:
+        raise Inconclusive(f"coroutine body {name_rx}: {len(c)} candidates")
+    return c[0]
+
+
+def _upvar_index(f):
+    """argument name -> field index of the coroutine state, read from the MIR `debug` map of the coroutine body"""
+    out = {}
+    for name, place in f.debug.items():
+        m = re.match(r"\(\(\*\(_1\.0: .*?\)\)\.(\d+): ", place)
+        if m:
+            out[name] = int(m.group(1))
+    return out
+
+
+def m2_pool_verify_rtx(S):
+    """`ckb_tx_pool::util::verify_rtx` (every pool admission, local/remote submission, re-verification after a reorg): with a cache entry the context-dependent
+    TimeRelativeTransactionVerifier (since + maturity) is STILL built for this very transaction and environment, run, and its verdict honoured; the answer on acceptance is the
+    cached entry unchanged; without an entry the full ContextualTransactionVerifier and then DaoScriptSizeVerifier run (both the pausable and the blocking variant) and the
+    answer is what the contextual verifier computed"""
+    from mir2smt.exec import CoroV
+    ob = "C14.m2"
+    f = _coro(S, r"verify_rtx", "util::verify_rtx")
+    ix = _upvar_index(f)
+    need = ["snapshot", "rtx", "tx_env", "cache_entry", "max_tx_verify_cycles", "command_rx"]
+    if any(n not in ix for n in need):
+        raise Inconclusive(f"verify_rtx coroutine upvars: {ix}")
+    for label, hit, pausable in (("cache_hit", True, None), ("miss_blocking", False, False), ("miss_pausable", False, True)):
+        ctx = S.ctx()
+        ctx.uninterpreted_unknown_calls = True
+        built = []
+
+        def nmv(ex, v):
+            v = deref(ex, v)
+            return getattr(v, "name", None) or type(v).__name__
+
+        def ctor(ex, c, a, d, built=built):
+            names = [nmv(ex, x) for x in a]
+            built.append((c.split("::")[0], names))
+            return OpaqueV(c.split("::")[0] + "(" + ",".join(names) + ")", d)
+
+        def fresh_completed(ex, k, ty):
+            return AggV((ex.ctx.int("fresh.cycles", "u64"), AggV((ex.ctx.int("fresh.fee", "u64"),), "Capacity")), "Completed")
+
+        def poll(ex, c, a, d):
+            # the awaited `verify_with_pause` future completes with the contextual verifier's verdict
+            inner = C.part("contextual", fresh_completed)(ex, "verify_with_pause", [], "Result<Completed, Error>")
+            return EnumV(0, ((0, (inner,)),), d)
+        cached = AggV((ctx.int("cached.cycles", "u64"), AggV((ctx.int("cached.fee", "u64"),), "Capacity")), "Completed")
+        ctx.env = [
+            (E.rx(r"TimeRelativeTransactionVerifier::<.*>::verify$"), C.part("time_relative")),
+            (E.rx(r"ContextualTransactionVerifier::<.*>::verify$"), C.part("contextual", fresh_completed)),
+            (E.rx(r"ContextualTransactionVerifier::<.*>::verify_with_pause$"), lambda ex, c, a, d: OpaqueV("pausable_future", d)),
+            (E.rx(r" as Future>::poll$"), poll),
+            (E.rx(r"DaoScriptSizeVerifier::<.*>::verify$"), C.part("dao_script_size")),
+            (E.rx(r"(TimeRelativeTransactionVerifier|ContextualTransactionVerifier|DaoScriptSizeVerifier)::<.*>::new$"), ctor),
+            (E.rx(r"<Arc<.*> as (Deref|Clone)>::(deref|clone)$"), lambda ex, c, a, d: a[0] if c.endswith("deref") else deref(ex, a[0])),
+            (E.rx(r"block_in_place::<"), lambda ex, c, a, d: ex.call_value(ex.top_frame, a[0], [], d)),
+            (E.rx(r"cloned_consensus$|as_data_loader$"), E.opaque_call()),
+            (E.rx(r"Reject::Verification$"), lambda ex, c, a, d: OpaqueV("reject_verification", d)),
+        ] + ERRC
+        ups = {
+            ix["snapshot"]: OpaqueV("snapshot", "Arc<Snapshot>"), ix["rtx"]: OpaqueV("rtx", "Arc<ResolvedTransaction>"), ix["tx_env"]: OpaqueV("tx_env", "Arc<TxVerifyEnv>"),
+            ix["cache_entry"]: ctx.ref_to(mk_option(hit, cached if hit else None, "Option<Completed>")), ix["max_tx_verify_cycles"]: ctx.int("max_cycles", "u64"),
+            ix["command_rx"]: mk_option(bool(pausable), ctx.ref_to(OpaqueV("command_rx", "Receiver")) if pausable else None, "Option<&mut Receiver>"),
+        }
+        coro = CoroV(0, tuple(sorted(ups.items())), (), "coroutine")
+        ps = S.run(ctx, f, [AggV((ctx.ref_to(coro),), "Pin"), ctx.ref_to(OpaqueV("task_context", "Context"))])
+        rs = returns(ps)
+        ready = [p for p in rs if isinstance(p.value, EnumV) and p.value.disc == 0]
+        S.prove(ctx, ob, f"{label}_every_path_completes_without_suspending_or_panicking", [], bool(ready and len(ready) == len(rs)) and T.not_(cond_of(panics(ps))))
+        # unwrap Poll::Ready(result)
+        import copy
+        inner = []
+        for p in ready:
+            q = copy.copy(p)
+            q.value = p.value.payload(0)[0]
+            inner.append(q)
+        if label == "cache_hit":
+            C.check(S, ctx, ob, label, inner, required=("time_relative",), complete_when=[])
+            tr = [n for t, n in built if t == "TimeRelativeTransactionVerifier"]
+            S.prove(ctx, ob, "cache_hit_time_relative_verifier_is_built_for_this_transaction_and_environment", [], bool(tr and all(n[0] == "rtx" and n[-1] == "tx_env" for n in tr)), extra={"note": str(tr)})
+            S.prove(ctx, ob, "cache_hit_runs_no_script_verification", [], bool(not [1 for p in inner if C.called(p, "contextual")]))
+            bad = []
+            for p in inner:
+                v = p.value
+                okp = v.payload(0)
+                if okp:
+                    cyc, fee = okp[0].fields
+                    bad.append(T.and_(p.cond(), C.ok_cond(p), T.not_(T.and_(T.eq(as_int(cyc), T.var("cached.cycles")), T.eq(as_int(fee), T.var("cached.fee"))))))
+            S.prove(ctx, ob, "cache_hit_answers_the_cached_cycles_and_fee_unchanged", [], T.not_(T.or_(*bad)))
+        else:
+            C.check(S, ctx, ob, label, inner, required=("contextual", "dao_script_size"), complete_when=[])
+            cv = [n for t, n in built if t == "ContextualTransactionVerifier"]
+            S.prove(ctx, ob, f"{label}_contextual_verifier_is_built_for_this_transaction_and_environment", [], bool(cv and all(n[0] == "rtx" and n[-1] == "tx_env" for n in cv)), extra={"note": str(cv) + " all=" + str(built)})
+            bad = []
+            for p in inner:
+                okp = p.value.payload(0)
+                if okp:
+                    cyc, fee = okp[0].fields
+                    bad.append(T.and_(p.cond(), C.ok_cond(p), T.not_(T.and_(T.eq(as_int(cyc), T.var("fresh.cycles")), T.eq(as_int(fee), T.var("fresh.fee"))))))
+            S.prove(ctx, ob, f"{label}_answers_what_the_contextual_verifier_computed", [], T.not_(T.or_(*bad)))
+
+
+# ---------------------------------------------------------------- m3: the read cache is never written from an uncommitted transaction
+def m3_store_transaction_never_writes_the_read_cache(S):
+    """`StoreTransaction` (the RocksDB write transaction) shares the `StoreCache` of the store; its READ accessors are read-through like the store's, but none of its block/cell
+    WRITE methods touches the cache -- an entry put there by a write before `commit` would make queries answer from data the database does not (yet, or ever) contain.  Every call
+    reachable from the listed write methods is inspected (catch-all environment handler): no argument derives from `self.cache`."""
+    ob = "C14.m3"
+    from mir2smt.srcinfo import struct_fields
+    from mir2smt.exec import ENV_PASS
+    fields = struct_fields("store/src/transaction.rs", "StoreTransaction")
+    names = ("insert_block", "delete_block", "insert_block_ext", "attach_block", "detach_block", "insert_tip_header", "insert_block_epoch_index", "insert_epoch_ext",
+             "insert_current_epoch_ext", "insert_cells", "delete_cells", "insert_header_digest", "delete_header_digest", "insert_block_filter", "commit")
+    for n in names:
+        f = [x for x in S.prog.funcs if x.kind == "fn" and x.short == n and "store/src/transaction.rs" in x.name and "{closure" not in x.name and re.search(r"impl StoreTransaction\b", x.impl_header or "")]
+        if len(f) != 1:
+            S.prove(S.ctx(), ob, f"{n}_found", [], False, extra={"note": f"{len(f)} candidates"})
+            continue
+        ctx = S.ctx()
+        ctx.uninterpreted_unknown_calls = True
+        ctx.max_paths = 64
+        touched = []
+
+        def spy(ex, c, a, d, touched=touched):
+            for x in a:
+                v = deref(ex, x)
+                nm = getattr(v, "name", "") or ""
+                if "field_cache" in nm:
+                    touched.append((c, nm))
+            return ENV_PASS
+        def db_write(ex, c, a, d):
+            spy(ex, c, a, d)
+            k = len([e for e in ex.log if e[0] == "dbw"])
+            ex.log.append(("dbw", c, [], list(ex.pc)))
+            return mk_result(ex.ctx.bool(f"db_write_ok_{k}").t, UNIT, OpaqueV("dberr", "Error"), d)
+
+        def one_item_iter(ex, c, a, d):
+            # loops over block parts / cell lists: the iterator yields one arbitrary item, then ends (bound: one item per loop)
+            spy(ex, c, a, d)
+            it = deref(ex, a[0])
+            key = getattr(it, "name", None) or repr(it)[:60]
+            k = len([e for e in ex.log if e[0] == "next" and e[2] == [key]])
+            ex.log.append(("next", c, [key], list(ex.pc)))
+            if k == 0 and d.strip().startswith(("Option<", "std::option::Option<", "core::option::Option<")):
+                inner = d[d.index("<") + 1:d.rindex(">")]
+                return mk_option(True, ex.ctx.fresh_of_type(f"item_{len(ex.log)}", inner), d)
+            return mk_option(False, None, d)
+        ctx.env = [(E.rx(r"RocksDBTransaction::(put|delete|commit)$"), db_write), (E.rx(r" as Iterator>::next$"), one_item_iter), (E.rx(r"."), spy)]
+        me = AggV(tuple(OpaqueV("field_" + fn_, "?") for fn_ in fields), "StoreTransaction")
+        args = [ctx.ref_to(me)] + [ctx.fresh_of_type(f"arg{i}", t) for i, (_, t) in enumerate(f[0].params[1:])]
+        try:
+            ps = S.run(ctx, f[0], args, allow=("return", "panic", "stop", "unsupported", "unwind"))
+        except Inconclusive as e:
+            S.prove(ctx, ob, f"{n}_explored", [], False, extra={"note": str(e)})
+            continue
+        outcomes = sorted({p.outcome for p in ps})
+        if os.environ.get("VERIF_DEBUG"):
+            print("DEBUG m3", n, len(ps), outcomes, [str(p.value)[:80] for p in ps if p.outcome not in ("return", "panic")][:2])
+        S.prove(ctx, ob, f"{n}_never_hands_the_read_cache_to_any_call", [], bool(ps and not touched), extra={"note": str(touched[:3])})
+        S.prove(ctx, ob, f"{n}_explored_to_the_end_on_every_path", [], bool(ps and all(p.outcome in ("return", "panic") for p in ps)), extra={"note": str(outcomes)})
+
+
+OBLIGATIONS = [m1_cache_hit_path, m2_pool_verify_rtx, m3_store_transaction_never_writes_the_read_cache]
 
 ENGINE = "M"
 LEVEL = "other"
